@@ -59,6 +59,11 @@ PLANS = {
     "C03": with_storage("C03", world()),
     "C04": only_storage("C04"),
     "C05": world(),
+    "C06": {
+        "quick": [st("dbg", "join", 1600, 12, 16), st("rel", "join", 1600, 12, 16)],
+        "thorough": [st("dbg", "join", 60000, 14, 16, 3000), st("rel", "join", 120000, 14, 16, 3000),
+                     st("rel", "join", 600, 10, 16, 3000, far=1), st("asan", "join", 6000, 12, 16, 3000)],
+    },
     "C08": with_storage("C08", world()),
     "C09": world(),
     "C11": {
@@ -103,6 +108,8 @@ RULES = {
 RULES.update({
     "C04": "random operation sequences (18 handle-taking access paths, shared/mutable/lending joins, entries(), full/partial/early-dropped drain, clear, slice views, entity churn) per storage kind x wrapper (17 combinations) over dense, sparse and layer-boundary index sets, compared with a BTreeMap after every operation; "
            "non-trivial = history with a remove-from-the-middle followed by a re-insert (dense swap-remove path) and, for slice-capable kinds, >=1 slice comparison",
+    "C06": "45 macro-generated join shapes of arity 1-16 mixing &ReadStorage, &mut WriteStorage, &Entities, bit sets and their And/Or/Xor/Not combinations, AtomicBitSet, negated storages, .maybe(), restricted views, change sets (shared / mutable / by value) and drain over 19 storage kinds, run as join / lend_join.next / lend_join.for_each / lend_join.get+get_unchecked over hostile membership assignments (empty, singletons, dense runs, densities 1..2^-11, layer-boundary indices, entities awaiting maintain); "
+           "non-trivial = configuration whose intersection is non-empty, differs from at least one member's own set and spans >=2 layer-0 words",
     "C11": "random system graphs (331 system-data shapes over 4 component storages + Entities + Read<LazyUpdate>, random DAG dependencies, barriers, thread-local systems, pools of 1-32 threads, 3-10 dispatches each); "
            "non-trivial = graph with >=2 systems sharing a storage of which >=1 writes and a dispatch in which >=2 systems overlapped in logical time",
     "C12": "the C04 operation sequences on the 11 tracked wrapper/inner combinations with a registered reader; window = one operation; event emission toggled at random points; clear() excluded; "
